@@ -1,6 +1,7 @@
 (* C13 — property theorems only.  exec = state after a schedule (a list of thread ids, one entry =
    one atomic step of that thread), from the initial state of the handshake. *)
 From Coq Require Import List ZArith Bool.
+From RD Require Import Common.Corr.
 From RD Require Import C13.Sched C13.ModelA C13.ModelD C13.Model C13.ProofsA C13.ProofsD C13.Proofs.
 Import ListNotations.
 Open Scope Z_scope.
